@@ -53,7 +53,7 @@ class Session:
             self.setup(it)
         return it
 
-    def run(self, entry, din=(), iin=(), pathctl=None, nout=4096, keep=False, max_steps=None):
+    def run(self, entry, din=(), iin=(), pathctl=None, nout=1 << 16, keep=False, max_steps=None):
         """execute harness `entry`; din/iin entries may be python numbers or sym Nodes"""
         it = self.new_interp(pathctl)
         if max_steps: it.max_steps = max_steps
@@ -110,11 +110,13 @@ class Session:
             res.interp = it
         return res
 
-    def explore(self, entry, din=(), iin=(), assumptions=(), max_paths=400, branch_timeout_ms=10000, zctx=None, ite_ints=False, on_path=None, max_steps=None, generic_position=False):
+    def explore(self, entry, din=(), iin=(), assumptions=(), max_paths=400, branch_timeout_ms=10000, zctx=None, ite_ints=False, on_path=None, max_steps=None, generic_position=False, branch_filter=None, sampler=None):
         """symbolic exploration of all feasible paths; returns (controller, [(trace, pc, RunResult)])"""
         ctl = PathController(zctx, branch_timeout_ms, max_paths)
         ctl.ite_ints = ite_ints
         ctl.generic_position = generic_position
+        ctl.branch_filter = branch_filter
+        ctl.pool.custom = sampler
         ctl.assumptions = list(assumptions)
         def run_path(c):
             r = self.run(entry, din, iin, pathctl=c, max_steps=max_steps)
@@ -128,6 +130,7 @@ class Native:
     """persistent native replay process"""
     def __init__(self, binary):
         self.binary = binary
+        self.timeout_s = 60
         self.p = subprocess.Popen([binary], stdin=subprocess.PIPE, stdout=subprocess.PIPE, stderr=subprocess.DEVNULL, text=True, bufsize=1)
 
     def call(self, entry, din=(), iin=()):
@@ -139,6 +142,13 @@ class Native:
         try:
             self.p.stdin.write(line + '\n')
             self.p.stdin.flush()
+            import select
+            rd, _, _ = select.select([self.p.stdout], [], [], self.timeout_s)
+            if not rd:
+                # hung native run: kill and report
+                self.p.kill(); self.p.wait()
+                self.p = subprocess.Popen([self.binary], stdin=subprocess.PIPE, stdout=subprocess.PIPE, stderr=subprocess.DEVNULL, text=True, bufsize=1)
+                return {'status': 'timeout', 'd': [], 'i': []}
             out = self.p.stdout.readline()
         except BrokenPipeError:
             out = ''
